@@ -1,8 +1,11 @@
 #!/bin/bash
-# usage: all_seeds.sh : every seeded change against the check(s) of its property (quick tier); prints one summary line per seed.
+# usage: all_seeds.sh [ids...] : every seeded change (default: all of seeded/) against the check of its own property
+# (quick tier); one summary line per seed.  /repo is modified while this runs and restored afterwards.
 cd /verif
-for id in c01 c02 c03 c04 c05 c06 c07 c08 c09 c10 c11 c12 c13 c14 c15 c16 c17 c18 c19 c20; do
-  C=$(echo $id | tr c C)
+ids="$@"
+[ -z "$ids" ] && ids=$(ls seeded)
+for id in $ids; do
+  C=$(echo $id | sed 's/^c\([0-9][0-9]\).*/C\1/')
   out=$(tools/try_seed.sh $id $C 2>&1)
   n=$(echo "$out" | grep -c "^VIOLATION")
   nf=$(echo "$out" | grep "^VIOLATION" | grep -vc "no-failing-input-found")
